@@ -151,7 +151,7 @@ class Writer:
         if len(set(cs)) == 1 and cs[0] != 0:
             forms += ["c*sum", "sum*c", "sum/d"] if cs[0] != 1 else ["sum", "sum", "sum"]
         if self.risky:
-            forms += ["arr@(v+b)", "arr@(k*v)", "(v*k)@arr"]
+            forms += ["arr@(v+b)", "arr@(k*v)", "(v*k)@arr", "consts.dot(v)", "v.dot(consts)", "(v+b).dot(consts)"]
         f = rng.choice(forms)
         arr = ["arr", cs]
         if f == "arr@v":
@@ -188,6 +188,14 @@ class Writer:
         if f == "(v*k)@arr":
             k = rng.choice([2.0, 0.5, -1.0, 4.0])
             return ["matmul", ["vbin", "*", vecnode, ["raw", k, "float"]], ["arr", [c / k for c in cs]]], 0.0
+        consts = ["velems", [["const", float(c), "float"] for c in cs]]
+        if f == "consts.dot(v)":
+            return ["dot", consts, vecnode], 0.0
+        if f == "v.dot(consts)":
+            return ["dot", vecnode, consts], 0.0
+        if f == "(v+b).dot(consts)":
+            b = q(rng, -2, 2)
+            return ["dot", ["vbin", "+", vecnode, ["raw", b, "float"]], consts], sum(cs) * b
         raise AssertionError(f)
 
     def views(self):
@@ -237,6 +245,16 @@ class Writer:
             v = self.elem[rng.choice(self.names)]
             pieces.append(["bin", "*", ["raw", k, "float"], ["bin", "**", v, ["raw", 0, "int"]]])
             residual -= k
+        if self.risky and rng.random() < 0.1:
+            # a constant spelled as a quadratic form / dot product of constant vectors
+            a_, b_ = q(rng, -2, 2), q(rng, -2, 2)
+            cv = ["velems", [["const", 1.0, "float"], ["const", 2.0, "float"]]]
+            if rng.random() < 0.5:
+                pieces.append(["qf", cv, [[a_, 0.0], [0.0, b_]]])
+                residual -= a_ + 4.0 * b_
+            else:
+                pieces.append(["dot", cv, ["velems", [["const", a_, "float"], ["const", b_, "float"]]]])
+                residual -= a_ + 2.0 * b_
         if residual != 0 or not pieces or rng.random() < 0.2:
             if residual != 0 and rng.random() < 0.3:
                 k1 = q(rng, -2, 2)
